@@ -10,6 +10,8 @@
 //! Mutants caught (tools/mutant_run.sh E <patch> C05 quick):
 //!   mutants/C05-eku-first-wins.diff      (has_allowed_eku accepts the first "other" EKU)
 //!   mutants/C05-anchors-only-ignored.diff (trust-anchor-only mode still consults user anchors)
+//!   /tmp/seed-C05/OUT/patch.diff          (independently seeded: system-anchor store loses the signing time /
+//!                                          NO_CHECK_TIME; caught by the validity-window x anchor-kind dimension, 38 "validity ..." keys)
 
 use c2pa::crypto::cose::{CertificateTrustPolicy, TrustAnchorType};
 use kit::{
